@@ -133,6 +133,7 @@ Inductive op :=
 | OpenLatest
 | OpenId (i : Z)
 | OpenSerial (s : Z)
+| OpenBoth (i s : Z)        (* reader(id=i, serial=s): refused *)
 | Close (h : Z)
 | WBegin (replacement : bool)
 | WPut (k v : Z)
@@ -203,6 +204,7 @@ Definition step (s : st) (o : op) : res (st * result) :=
       | Some v => Ok (register s v)
       | None => Lib eKeyError
       end
+  | OpenBoth _ _ => Lib eValueError   (* "cannot specify both id and serial", before the lock is taken *)
   | Close h =>
       (* Transaction._end: _check_ended; then Zone._end_read: remove, prune *)
       if h <? next_h s then
@@ -330,6 +332,7 @@ Definition op_of_obs (o : obs) : option op :=
   | L [I 1; I i] => Some (OpenId i)
   | L [I 2; I s] => Some (OpenSerial s)
   | L [I 3; I h] => Some (Close h)
+  | L [I 11; I i; I s] => Some (OpenBoth i s)
   | L [I 4; I r] => Some (WBegin (r =? 1))
   | L [I 5; I k; I v] => Some (WPut k v)
   | L [I 6; I k] => Some (WDel k)
